@@ -229,6 +229,7 @@ func (w *Writer) Delete(bs []byte) (success bool) {
 // Delete2 is same as Delete(). Additionally returns the deleted item's node
 func (w *Writer) Delete2(bs []byte) (n *skiplist.Node, success bool) {
 	if n := w.GetNode(bs); n != nil {
+		verifYield(VerifPtDelGot)
 		return n, w.DeleteNode(n)
 	}
 
